@@ -19,7 +19,7 @@ From Sylt Require Import Back.IR Back.Emit Back.ScopeProofs.
 From Sylt Require Import Pres.EmitAst Pres.EmitRel Pres.Names Pres.LuaFuel Pres.LuaEv Pres.Preamble Pres.Tie.
 From Sylt Require Import Pres.Frag.
 From Sylt Require Import Pres.SimDefs Pres.SimOps Pres.SimVals.
-From Sylt Require Import Pres.SimExpr Pres.LowerShape Pres.SimSteps Pres.SimExprProofs Pres.SimStmt Pres.NoExit Pres.NoRet.
+From Sylt Require Import Pres.SimExpr Pres.LowerShape Pres.SimSteps Pres.SimExprProofs Pres.NoExit Pres.NoRet Pres.SimStmt Pres.SimCall.
 From Sylt Require Pres.SemSane.
 From Sylt Require Import Pres.RunEq.
 From Sylt Require Import Lua.LuaAst Lua.LuaMap Lua.LuaNum Lua.LuaProofs Lua.LuaCore.
@@ -85,16 +85,13 @@ Lemma glob_set_global st v : glob (raw_set_in st globals_id (VStr (fmt_var v)) (
 Proof. unfold glob. rewrite get_table_raw_set_in, raw_get_set_str by reflexivity. rewrite String.eqb_refl. reflexivity. Qed.
 
 
-(* ------------------------------------------------------------------ the body of `start` *)
+(* ------------------------------------------------------------------ function definitions at chunk level *)
 
-Lemma mapM_snoc {A B} (f : A -> M B) a x c ca c1 cx c' :
-  mapM f a c = Ok (ca, c1) -> f x c1 = Ok (cx, c') -> mapM f (a ++ [x]) c = Ok (ca ++ [cx], c').
-Proof.
-  revert c ca. induction a as [|h t IH]; intros c ca Ha Hx.
-  - destruct (mapM_nil_ok _ _ _ _ Ha) as [-> ->]. cbn [app mapM]. unfold IR.bind, IR.ret. rewrite Hx. reflexivity.
-  - apply mapM_cons_ok in Ha as (y & c2 & ys & Hy & Hys & ->).
-    cbn [app mapM]. unfold IR.bind, IR.ret. rewrite Hy. rewrite (IH _ _ Hys Hx). reflexivity.
-Qed.
+(* the world after the definition of the function d *)
+Definition world_add (W : world) (d : fdyn) : world :=
+  mkWorld (fun c x => w_IS W c x \/ (c = fd_cf d /\ x = SyltSem.SClos (fd_ci d)))
+          (fun p lv => w_IL W p lv \/ (p = fd_pf d /\ lv = VFun (fd_fid d)))
+          (d :: w_funs W).
 
 Section Sim.
 Variable pv : N.
@@ -102,209 +99,40 @@ Variable sv : N.
 Variable bound : N.
 Variable u : counts.
 
-Notation rel := (rel pv bound).
 Notation ctx_ok := (ctx_ok bound).
 
-Lemma frag_stmts_app k a : forall sc b sc',
-  frag_stmts pv sv bound k sc (a ++ b) = Some sc' ->
-  exists sc1 k', frag_stmts pv sv bound k sc a = Some sc1 /\ frag_stmts pv sv bound k' sc1 b = Some sc'.
+(* the Lua state after `local function V<fv>(ps) b end` *)
+Definition lua_def_state (stL : state) (E1 : env) (ps : list N) (b : block) : state :=
+  set_cell (snd (alloc_closure (snd (alloc_cell stL VNil)) (mkClosure E1 (map fmt_var ps) b))) (s_ncell stL) (VFun (s_nclo stL)).
+
+Lemma lua_def_old stL E1 ps b p : (p < s_ncell stL)%positive -> get_cell (lua_def_state stL E1 ps b) p = get_cell stL p.
 Proof.
-  revert k. induction a as [|s a IH]; intros k sc b sc' H.
-  - exists sc, k. split; [|exact H]. destruct k; [discriminate | reflexivity].
-  - destruct k as [|k]; [discriminate|]. cbn [app] in H. rewrite frag_stmts_cons in *.
-    destruct (frag_stmt pv sv bound k sc s) as [sc0|]; [|discriminate].
-    apply IH in H. exact H.
+  intros Hp. unfold lua_def_state. rewrite get_cell_set_other by lia.
+  change (get_cell (snd (alloc_cell stL VNil)) p = get_cell stL p). apply get_cell_alloc_old. exact Hp.
 Qed.
 
-(* what running the body of `start` gives on the Lua side: it falls off the end or returns *)
-Definition stop_post (E : env) (stL : state) (b : block) (st' : sstate) : Prop :=
-  exists ev stL', ExecS E b stL (RErr ev stL') /\ SyltSem.trace st' = s_out stL'.
-
-Lemma stop_of_exit {A} ctx sc e c c' E stL b o st' :
-  exit_post pv bound ctx sc e c c' E stL b (@SyltSem.RStop A o) st' -> stop_post E stL b st'.
-Proof. intros (rl & Hx & (ev & stL' & -> & Htr)). exists ev, stL'. split; assumption. Qed.
-
-Definition body_post (E : env) (stL : state) (b : block) (r : SyltSem.res sval) (st' : sstate) : Prop :=
-  match r with
-  | SyltSem.RVal _ =>
-      exists E' sg stL', ExecS E b stL (ROk (E', sg) stL') /\
-                         (sg = SigNormal \/ exists vs, sg = SigReturn vs) /\ SyltSem.trace st' = s_out stL'
-  | SyltSem.RStop o => stop_post E stL b st'
-  | SyltSem.RAbrupt _ => True
-  end.
-
-Lemma fbody_sim n g k body ctx c code c' e st r st' sc sc' l E stL F :
-  SyltSem.block_value n e body st = (r, st') ->
-  lower_fbody (statement g) (expression g) body ctx c = Ok (code, c') ->
-  frag_stmts pv sv bound k sc body = Some sc' ->
-  ucovers u code -> ctx_ok l F E c c' -> rel sc e st E stL -> interesting r -> noab r ->
-  exists b l', cshape u l code b l' c c' /\ body_post E stL b r st'.
+Lemma linv_lua_def stL E1 ps b : linv stL -> linv (lua_def_state stL E1 ps b).
 Proof.
-  intros Hev Hlow Hfrag Hu Hctx Hrel Hint Hna.
-  destruct n as [|n]; [cbn in Hev; inversion Hev; subst; destruct Hint|].
-  cbn [SyltSem.block_value] in Hev. unfold lower_fbody in Hlow.
-  destruct (rev body) as [|last init_rev] eqn:Hrev.
-  - (* empty body *)
-    assert (body = []) by (rewrite <- (rev_involutive body), Hrev; reflexivity). subst body.
-    apply ret_ok in Hlow as [<- <-].
-    unfold SyltSem.bind in Hev. destruct n as [|n]; [cbn in Hev; inversion Hev; subst; destruct Hint|].
-    cbn in Hev. inversion Hev; subst r st'.
-    eexists _, _. split; [apply cshape_nil|]. exists E, SigNormal, stL. splits; [apply XS_nil | left; reflexivity | apply (r_trace _ _ _ _ _ _ _ Hrel)].
-  - assert (Hbody : body = rev init_rev ++ [last]) by (rewrite <- (rev_involutive body), Hrev; reflexivity).
-    mon Hlow. apply lower_list_ok in Hm as (cs & Hmi & ->).
-    destruct (frag_stmts_app _ _ _ _ _ Hfrag) as (sc1 & k' & Hfi & Hfl).
-    destruct k' as [|k']; [discriminate|]. rewrite frag_stmts_cons in Hfl.
-    destruct (frag_stmt pv sv bound k' sc1 last) as [sc2|] eqn:Hflast; [|discriminate Hfl].
-    apply ucovers_app in Hu as [Hui Hul].
-    assert (Hle : c <= c0 /\ c0 <= c').
-    { destruct (L_stmts_all pv sv bound u g k (rev init_rev) ctx c cs c0 sc sc1 l Hmi Hfi) as (_ & _ & (_ & H1 & _)).
-      split; [exact H1|]. destruct last; try (destruct (L_stmt_all pv sv bound u g k' _ ctx c0 a0 c' sc1 sc2 l Hm0 Hflast) as (_ & _ & (_ & H2 & _)); exact H2).
-      destruct k' as [|k'']; [discriminate|]. rewrite frag_stmt_sexpr in Hflast. destruct (frag_expr pv sv bound k'' sc1 value) eqn:Hfe; [|discriminate Hflast].
-      mon Hm0. destruct a as [cv rv]. destruct (L_expr_all pv sv bound u g k'' value ctx c0 cv rv c' sc1 l Hm Hfe) as (_ & _ & (_ & H2 & _) & _). exact H2. }
-    destruct Hle as [Hc0 Hc0'].
-    assert (Hctxi : ctx_ok l F E c c0) by (eapply ctx_sub; [exact Hctx | lia | lia]).
-    assert (Hgen : SyltSem.bind (SyltSem.exec_block n e (rev init_rev ++ [last])) (fun _ : senv => SyltSem.ret (SV Values.VLuaNil)) st = (r, st') ->
-                   statement g last ctx c0 = Ok (a0, c') ->
-                   exists (b : block) (l' : alut), cshape u l (concat cs ++ a0) b l' c c' /\ body_post E stL b r st').
-    { intros Hev' Hst.
-      pose proof (mapM_snoc _ _ _ _ _ _ _ _ Hmi Hst) as Hmall.
-      assert (Hcc : concat (cs ++ [a0]) = concat cs ++ a0) by (rewrite concat_app; cbn [concat]; rewrite app_nil_r; reflexivity).
-      assert (Huall : ucovers u (concat (cs ++ [a0]))) by (rewrite Hcc; apply ucovers_app; split; assumption).
-      unfold SyltSem.bind at 1 in Hev'.
-      destruct (SyltSem.exec_block n e (rev init_rev ++ [last]) st) as [[e1|o|cc] st1] eqn:He1.
-      3: { inversion Hev'; subst. destruct Hna. }
-      2: { inversion Hev'; subst.
-           destruct (proj1 (proj2 (proj2 (P_all pv sv bound u n))) g k _ ctx c _ c' e st _ st' sc sc' l E stL F He1 Hmall Hfrag Huall Hctx Hrel Hint)
-             as (b1 & l1 & Hs1 & Hpost). rewrite Hcc in Hs1.
-           eexists _, _. split; [exact Hs1 | cbn [stmt_post] in Hpost; cbn [body_post]; eapply stop_of_exit; exact Hpost]. }
-      cbn in Hev'. inversion Hev'; subst r st'. clear Hev'.
-      destruct (proj1 (proj2 (proj2 (P_all pv sv bound u n))) g k _ ctx c _ c' e st _ st1 sc sc' l E stL F He1 Hmall Hfrag Huall Hctx Hrel I)
-        as (b1 & l1 & Hs1 & E1 & stL1 & F1 & (Hx1 & _ & Hrel1 & _) & _). rewrite Hcc in Hs1.
-      eexists _, _. split; [exact Hs1|].
-      exists E1, SigNormal, stL1. splits; [exact Hx1 | left; reflexivity | apply (r_trace _ _ _ _ _ _ _ Hrel1)]. }
-    destruct last; try (apply Hgen; assumption).
-    (* the last statement is an expression: its value is returned *)
-    clear Hgen.
-    destruct k' as [|k'']; [discriminate|]. rewrite frag_stmt_sexpr in Hflast.
-    destruct (frag_expr pv sv bound k'' sc1 value) eqn:Hfe; [|discriminate Hflast].
-    mon Hm0. destruct a as [code_v rv]. cbn [fst snd] in *.
-    apply ucovers_app in Hul as [Huv Hur].
-    assert (Hcrv : 1 <= count_of u rv) by (eapply Hur; [left; reflexivity | left; reflexivity]).
-    assert (Hrest : forall l0, exists b2 l2, cshape u l0 code_v b2 l2 c0 c' /\ c0 <= rv /\ rv < c')
-      by (intros l0; apply (L_expr_all pv sv bound u g k'' value ctx c0 code_v rv c' sc1 l0 Hm Hfe)).
-    assert (Hret : forall l0, cshape u l0 [IReturn rv] (fst (agen_one u l0 (IReturn rv))) l0 c' c')
-      by (intros l0; apply cshape_plain; [lia | reflexivity | reflexivity | reflexivity]).
-    unfold SyltSem.bind at 1 in Hev.
-    destruct (SyltSem.exec_block n e (rev init_rev) st) as [[e1|o|cc] st1] eqn:He1.
-    3: { inversion Hev; subst. destruct Hna. }
-    2: { inversion Hev; subst.
-         destruct (proj1 (proj2 (proj2 (P_all pv sv bound u n))) g k _ ctx c _ c0 e st _ st' sc sc1 l E stL F He1 Hmi Hfi Hui Hctxi Hrel Hint)
-           as (b1 & l1 & Hs1 & Hp1). apply stop_of_exit in Hp1 as (ev & stL1 & Hx1 & Htr).
-         destruct (Hrest l1) as (b2 & l2 & Hs2 & _).
-         eexists _, _. split; [eapply cshape_app; [exact Hs1|]; eapply cshape_app; [exact Hs2 | apply Hret]|].
-         exists ev, stL1. split; [apply ExecS_app_stop; [exact Hx1 | intros []] | exact Htr]. }
-    destruct (proj1 (proj2 (proj2 (P_all pv sv bound u n))) g k _ ctx c _ c0 e st _ st1 sc sc1 l E stL F He1 Hmi Hfi Hui Hctxi Hrel I)
-      as (b1 & l1 & Hs1 & E1 & stL1 & F1 & Hok1 & _ & _).
-    pose proof Hok1 as (Hx1 & _ & Hrel1 & _).
-    assert (Hctx1 : ctx_ok l1 F1 E1 c0 c') by (eapply (ctx_afterS pv bound u); eassumption).
-    destruct (SyltSem.eval n e1 value st1) as [[v_|o|cc] st2] eqn:He2.
-    3: { inversion Hev; subst. destruct Hna. }
-    2: { inversion Hev; subst.
-         destruct (proj1 (P_all pv sv bound u n) g k'' value ctx c0 code_v rv c' e1 st1 _ st' sc1 l1 E1 stL1 F1 He2 Hm Hfe Huv Hctx1 Hrel1 Hint)
-           as (b2 & l2 & Hs2 & _ & _ & Hp2). apply stop_of_exit in Hp2 as (ev & stL2 & Hx2 & Htr).
-         eexists _, _. split; [eapply cshape_app; [exact Hs1|]; eapply cshape_app; [exact Hs2 | apply Hret]|].
-         exists ev, stL2. split; [|exact Htr].
-         eapply ExecS_app; [exact Hx1|]. apply ExecS_app_stop; [exact Hx2 | intros []]. }
-    inversion Hev; subst r st'. clear Hev.
-    destruct (proj1 (P_all pv sv bound u n) g k'' value ctx c0 code_v rv c' e1 st1 _ st2 sc1 l1 E1 stL1 F1 He2 Hm Hfe Huv Hctx1 Hrel1 I)
-      as (b2 & l2 & Hs2 & _ & _ & E2 & stL2 & F2 & Hok2 & Hd2). specialize (Hd2 Hcrv).
-    pose proof Hok2 as (Hx2 & _ & Hrel2 & _).
-    eexists _, _. split; [eapply cshape_app; [exact Hs1|]; eapply cshape_app; [exact Hs2 | apply Hret]|].
-    destruct (denotes_now _ _ _ _ _ Hd2 (r_wf _ _ _ _ _ _ _ Hrel2) (r_linv _ _ _ _ _ _ _ Hrel2)) as (lv & Hv & st3 & _ & Hm3 & Hx3).
-    exists E2, (SigReturn [lv]), st3. splits.
-    + eapply ExecS_app; [exact Hx1|]. eapply ExecS_app; [exact Hx2|].
-      cbn [agen_one fst]. apply XS_stop; [|intros []].
-      eapply Exec_do. apply ExecBlock_of_ExecS; [|repeat constructor | intros []].
-      apply XS_stop; [|intros []]. apply Exec_return. apply EvalList_one. exact Hm3.
-    + right. eauto.
-    + rewrite (r_trace _ _ _ _ _ _ _ Hrel2). symmetry. apply Hx3.
-Qed.
-(* the global definitions at chunk level: run_outer executes them one after the other with the same fuel *)
-Lemma globals_sim n g : forall gs k ctx c cs c' e st r st' sc sc' l E stL F,
-  SyltSem.run_outer n e gs st = (r, st') ->
-  mapM (fun s => statement g s ctx) gs c = Ok (cs, c') ->
-  forallb is_plain_def gs = true ->
-  frag_stmts pv sv bound k sc gs = Some sc' -> ucovers u (concat cs) -> ctx_ok l F E c c' -> rel sc e st E stL ->
-  interesting r ->
-  exists b l', cshape u l (concat cs) b l' c c' /\ stmt_post pv bound ctx sc sc' e F c c' E stL b r st'.
-Proof.
-  pose proof (proj1 (proj2 (P_all pv sv bound u n))) as IHs.
-  induction gs as [|s ss IHss]; intros k ctx c cs c' e st r st' sc sc' l E stL F Hev Hm Hpl Hfrag Hu Hctx Hrel Hint.
-  - destruct (mapM_nil_ok _ _ _ _ Hm) as [-> ->]. destruct k as [|k]; [discriminate|]. cbn in Hfrag. inversion Hfrag; subst sc'.
-    cbn in Hev. inversion Hev; subst r st'.
-    eexists _, _. split; [apply cshape_nil|]. cbn [stmt_post]. exists E, stL, F.
-    split; [|split; [apply sext_refl | apply incl_refl]].
-    split; [apply XS_nil|]. split; [apply wframe_refl|]. split; [exact Hrel | split; [apply F_new_refl | apply keep_refl]].
-  - destruct k as [|k]; [discriminate|]. rewrite frag_stmts_cons in Hfrag.
-    destruct (frag_stmt pv sv bound k sc s) as [sc1|] eqn:Hfs; [|discriminate Hfrag].
-    cbn [forallb] in Hpl. apply andb_prop in Hpl as [Hps Hpl].
-    apply mapM_cons_ok in Hm as (y & c1 & ys & Hy & Hys & ->). cbn [concat] in *.
-    apply ucovers_app in Hu as [Huy Huys].
-    destruct (L_stmt_all pv sv bound u g k s ctx c y c1 sc sc1 l Hy Hfs) as (_ & _ & (_ & Hc1 & _)).
-    assert (Hrest : forall l0, exists b2 l2, cshape u l0 (concat ys) b2 l2 c1 c')
-      by (intros l0; eapply (L_stmts_all pv sv bound u); eassumption).
-    destruct (Hrest l) as (_ & _ & (_ & Hc1' & _)).
-    assert (Hctxs : ctx_ok l F E c c1) by (eapply ctx_sub; [exact Hctx | lia | lia]).
-    assert (Hstep : SyltSem.run_outer n e (s :: ss) st =
-                    SyltSem.bind (SyltSem.exec n e s) (fun e' => SyltSem.run_outer n e' ss) st)
-      by (destruct s; try discriminate Hps; reflexivity).
-    rewrite Hstep in Hev. clear Hstep. unfold SyltSem.bind at 1 in Hev.
-    destruct (SyltSem.exec n e s st) as [[e1|o|cc] st1] eqn:He1.
-    2: { inversion Hev; subst.
-         destruct (IHs g k s ctx c y c1 e st _ st' sc sc1 l E stL F He1 Hy Hfs Huy Hctxs Hrel Hint) as (b1 & l1 & Hs1 & Hp1).
-         destruct (Hrest l1) as (b2 & l2 & Hs2).
-         eexists _, _. split; [eapply cshape_app; eassumption|].
-         cbn [stmt_post] in *. eapply exit_app; [exact Hp1 | lia]. }
-    2: { inversion Hev; subst.
-         destruct (IHs g k s ctx c y c1 e st _ st' sc sc1 l E stL F He1 Hy Hfs Huy Hctxs Hrel Hint) as (b1 & l1 & Hs1 & Hp1).
-         destruct (Hrest l1) as (b2 & l2 & Hs2).
-         eexists _, _. split; [eapply cshape_app; eassumption|].
-         cbn [stmt_post] in *. eapply exit_app; [exact Hp1 | lia]. }
-    destruct (IHs g k s ctx c y c1 e st _ st1 sc sc1 l E stL F He1 Hy Hfs Huy Hctxs Hrel I)
-      as (b1 & l1 & Hs1 & E1 & stL1 & F1 & Hok1 & Hse1 & Hinc1).
-    pose proof Hok1 as (Hx1 & _ & Hrel1 & _).
-    assert (Hctx1 : ctx_ok l1 F1 E1 c1 c') by (eapply (ctx_afterS pv bound u); eassumption).
-    destruct (IHss k ctx c1 ys c' e1 st1 r st' sc1 sc' l1 E1 stL1 F1 Hev Hys Hpl Hfrag Huys Hctx1 Hrel1 Hint)
-      as (b2 & l2 & Hs2 & Hpost).
-    eexists _, _. split; [eapply cshape_app; eassumption|].
-    destruct r as [e2|o|cc].
-    + destruct Hpost as (E2 & stL2 & F2 & Hok2 & Hse2 & Hinc2).
-      exists E2, stL2, F2. split; [eapply (okstepS_trans pv bound); eassumption|].
-      split; [eapply sext_trans; eassumption | eapply incl_tran; eassumption].
-    + cbn [stmt_post] in *. eapply (exit_pre pv bound ctx sc sc1 e e1 st st1); eassumption.
-    + cbn [stmt_post] in *. eapply (exit_pre pv bound ctx sc sc1 e e1 st st1); eassumption.
+  intros Hli. apply linv_set_cell. destruct Hli as [Hd Hg [Hc] Hn]. constructor.
+  - exact Hd.
+  - exact Hg.
+  - constructor. unfold alloc_closure, alloc_cell. cbn [snd s_clos s_nclo]. rewrite pget_pset_other; [exact Hc | lia].
+  - unfold alloc_closure, alloc_cell. cbn [snd s_nclo]. lia.
 Qed.
 
-(* `local function V<sv>() b end` at chunk level; SyltSem: a new cell that holds the new closure *)
-Lemma rel_define_fun sc e st E stL body b :
-  rel sc e st E stL -> ~ In sv sc -> sv <> pv -> sv < bound ->
-  rel sc (start_env sv e st) (start_state sv body e st)
-      (sset (fmt_var sv) (s_ncell stL) E)
-      (set_cell (snd (alloc_closure (snd (alloc_cell stL VNil)) (mkClosure (sset (fmt_var sv) (s_ncell stL) E) [] b)))
-                (s_ncell stL) (VFun (s_nclo stL))).
+(* `local function V<fv>` for a function that is not callable (start): the world stays *)
+Lemma rel_define_start fl W sc e st E stL ps body b :
+  rel pv sv bound u fl W sc e st E stL -> ~ In sv sc -> sv <> pv -> sv < bound -> ~ In sv (fnames fl) ->
+  rel pv sv bound u fl W sc (def_env sv e st) (def_state sv ps body e st)
+      (sset (fmt_var sv) (s_ncell stL) E) (lua_def_state stL (sset (fmt_var sv) (s_ncell stL) E) ps b).
 Proof.
-  intros [Hv Hb Hi Hp Hpb HpE HpG Hwf Ht Hli] Hnin Hnpv Hsvb.
-  assert (Hold : forall p, (p < s_ncell stL)%positive ->
-            get_cell (set_cell (snd (alloc_closure (snd (alloc_cell stL VNil)) (mkClosure (sset (fmt_var sv) (s_ncell stL) E) [] b)))
-                               (s_ncell stL) (VFun (s_nclo stL))) p = get_cell stL p).
-  { intros p Hp'. rewrite get_cell_set_other by lia.
-    change (get_cell (snd (alloc_cell stL VNil)) p = get_cell stL p). apply get_cell_alloc_old. exact Hp'. }
-  unfold start_env, start_state. constructor.
+  intros [Hv Hb Hi Hp Hpb HpE HpG Hwf Ht Hli HW] Hnin Hnpv Hsvb Hnfl.
+  unfold def_env, def_state. constructor.
   - intros w Hw. destruct (Hv w Hw) as (cc & x & p & H1 & H2 & H3 & H4).
     assert (Hne : w <> sv) by (intros ->; contradiction).
     exists cc, x, p. cbn [SyltSem.lookup SyltSem.cells]. destruct (N.eqb_spec sv w); [congruence|].
     splits; [exact H1 | apply nth_error_app_old; exact H2 | rewrite sget_sset_var by exact Hne; exact H3 |].
-    rewrite Hold; [exact H4 | eapply wf_alloc; eassumption].
+    rewrite lua_def_old; [exact H4 | eapply wf_alloc; eassumption].
   - exact Hb.
   - intros v1 v2 cc H1 H2. cbn [SyltSem.lookup].
     destruct (N.eqb_spec sv v1) as [->|]; [contradiction|]. destruct (N.eqb_spec sv v2) as [->|]; [contradiction|].
@@ -319,45 +147,183 @@ Proof.
   - pose proof (wfenv_local E stL sv VNil Hwf) as [HV Hin Ha]. constructor; [exact HV | exact Hin |].
     intros x p H. specialize (Ha x p H). cbn in *. exact Ha.
   - exact Ht.
-  - apply linv_set_cell. destruct Hli as [Hd Hg [Hc] Hn]. constructor.
-    + exact Hd.
-    + exact Hg.
-    + constructor. unfold alloc_closure, alloc_cell. cbn [snd s_clos s_nclo]. rewrite pget_pset_other; [exact Hc | lia].
-    + unfold alloc_closure, alloc_cell. cbn [snd s_nclo]. lia.
+  - apply linv_lua_def. exact Hli.
+  - assert (Hw1 : winv pv sv bound u fl W sc e (def_state sv ps body e st) E (lua_def_state stL (sset (fmt_var sv) (s_ncell stL) E) ps b)).
+    { apply (winv_states_gen pv sv bound u fl W sc e st E stL _ _ HW).
+      - intros c x Hx. cbn [def_state SyltSem.cells]. pose proof (wi_IS _ _ _ _ _ _ _ _ _ _ _ HW c x Hx).
+        rewrite nth_error_app1; [reflexivity | apply nth_error_Some; congruence].
+      - intros ci Hci. cbn [def_state SyltSem.clos]. rewrite nth_error_app1; [reflexivity | exact Hci].
+      - cbn [def_state SyltSem.clos]. rewrite app_length. lia.
+      - intros p lv Hq. apply lua_def_old. apply (wi_IL _ _ _ _ _ _ _ _ _ _ _ HW p lv Hq).
+      - unfold lua_def_state, set_cell, alloc_closure, alloc_cell. cbn [snd s_ncell]. lia.
+      - intros fid Hfid. unfold lua_def_state, set_cell, alloc_closure, alloc_cell. cbn [snd s_clos s_nclo]. rewrite pget_pset_other; [reflexivity | lia].
+      - unfold lua_def_state, set_cell, alloc_closure, alloc_cell. cbn [snd s_nclo]. lia. }
+    apply (winv_env pv sv bound u fl W sc e _ E _ sc _ _ Hw1).
+    + intros v c x Hvin Hlk. cbn [SyltSem.lookup] in Hlk. destruct (N.eqb_spec sv v) as [->|]; [contradiction|].
+      apply (wi_scS _ _ _ _ _ _ _ _ _ _ _ HW v c x Hvin Hlk).
+    + apply (wi_scfl _ _ _ _ _ _ _ _ _ _ _ HW).
+    + intros v p lv Hvin Hq. rewrite sget_sset_var in Hq by (intros ->; contradiction).
+      apply (wi_lprot _ _ _ _ _ _ _ _ _ _ _ HW v p lv Hvin Hq).
+    + intros d Hd Hvis. destruct (wi_vsc _ _ _ _ _ _ _ _ _ _ _ HW d Hd Hvis) as [Hisc Hifl].
+      apply (fvisS_same pv e _ d (wi_visS _ _ _ _ _ _ _ _ _ _ _ HW d Hd Hvis)).
+      * cbn [SyltSem.lookup]. destruct (N.eqb_spec sv (fd_var d)) as [Heq|]; [|reflexivity]. exfalso. apply Hnfl. rewrite Heq. exact Hvis.
+      * intros g Hg. cbn [SyltSem.lookup]. destruct (N.eqb_spec sv g) as [Heq|]; [|reflexivity]. exfalso. subst g.
+        destruct Hg as [[Hg|Hg]|Hg]; [apply Hnin, Hisc, Hg | apply Hnfl; unfold fnames in *; apply (incl_map fst Hifl); exact Hg | apply Hnpv; exact Hg].
+    + intros d Hd Hvis. destruct (wi_vsc _ _ _ _ _ _ _ _ _ _ _ HW d Hd Hvis) as [Hisc Hifl].
+      apply (fvisL_same E _ d (wi_visL _ _ _ _ _ _ _ _ _ _ _ HW d Hd Hvis)).
+      * apply sget_sset_var. intros Heq. apply Hnfl. rewrite <- Heq. exact Hvis.
+      * intros g [Hg|Hg]; apply sget_sset_var; intros Heq; subst g;
+          [apply Hnin, Hisc, Hg | apply Hnfl; unfold fnames in *; apply (incl_map fst Hifl); exact Hg].
+    + apply (wi_vsc _ _ _ _ _ _ _ _ _ _ _ HW).
+Qed.
+
+(* `local function V<fv>(ps) <body> end` for a top-level function: it joins the callable functions and the
+   world; the description d records its code, its cells and its closure environments *)
+Lemma rel_define_function fl W sc e st E stL fv ps body g k scout bc c c2 l :
+  rel pv sv bound u fl W sc e st E stL ->
+  (forall d, In d (w_funs W) -> In (fd_var d) (fnames fl)) ->
+  fresh_id pv sv bound fl sc fv = true ->
+  params_ok pv sv bound ((fv, length ps) :: fl) sc ps = true ->
+  frag_stmts pv sv bound ((fv, length ps) :: fl) k (rev ps ++ sc) body = Some scout ->
+  lower_fbody (statement g) (expression g) body 0 c = Ok (bc, c2) ->
+  ucovers u bc -> bound <= c -> lut_ok bound l c c2 -> E_free E c c2 ->
+  let E1 := sset (fmt_var fv) (s_ncell stL) E in
+  let d := mkFdyn fv ps body sc ((fv, length ps) :: fl) g k scout bc c c2 l
+                  (length (SyltSem.cells st)) (length (SyltSem.clos st)) (def_env fv e st)
+                  (s_ncell stL) (s_nclo stL) E1 in
+  rel pv sv bound u ((fv, length ps) :: fl) (world_add W d) sc (def_env fv e st) (def_state fv ps body e st)
+      E1 (lua_def_state stL E1 ps (fbody u d)) /\
+  (forall d', In d' (w_funs (world_add W d)) -> In (fd_var d') (fnames ((fv, length ps) :: fl))).
+Proof.
+  intros Hrel Hall Hfresh Hpok Hfb Hlow Hub Hbc Hlut HEf E1 d.
+  pose proof Hrel as [Hv Hb Hi Hp Hpb HpE HpG Hwf Ht Hli HW].
+  destruct (fresh_id_inv _ _ _ _ _ _ Hfresh) as (Hnin & Hnpv & Hnsv & Hfvb).
+  pose proof (fresh_id_fl _ _ _ _ _ _ Hfresh) as Hnfl.
+  set (fl' := (fv, length ps) :: fl) in *.
+  assert (Hold : forall p, (p < s_ncell stL)%positive -> get_cell (lua_def_state stL E1 ps (fbody u d)) p = get_cell stL p)
+    by (intros p Hp'; apply lua_def_old; exact Hp').
+  assert (Hwf1 : wfenv E1 (lua_def_state stL E1 ps (fbody u d))).
+  { pose proof (wfenv_local E stL fv VNil Hwf) as [HV Hin Ha]. constructor; [exact HV | exact Hin |].
+    intros x p H. specialize (Ha x p H). cbn in *. exact Ha. }
+  assert (Hcl : forall v c0, In v sc -> SyltSem.lookup e v = Some c0 -> (c0 < length (SyltSem.cells st))%nat).
+  { intros v c0 Hvin Hlk. destruct (Hv v Hvin) as (c1 & x & p & H1 & H2 & _). rewrite Hlk in H1. inversion H1; subst. apply nth_error_Some. congruence. }
+  (* the static facts about the new function *)
+  assert (Hstatic : fstatic pv sv bound u d).
+  { constructor; cbn [d fd_var fd_params fd_body fd_sc fd_fl fd_g fd_k fd_scout fd_code fd_c fd_c' fd_lut fd_ef fd_Ef].
+    - exact Hlow.
+    - exact Hfb.
+    - exact Hpok.
+    - left. reflexivity.
+    - splits; assumption.
+    - exact Hb.
+    - intros g0 [<-|Hg]; [split; assumption|]. unfold fnames in Hg. apply in_map_iff in Hg as ((f & ar) & <- & Hf).
+      destruct (wi_cover _ _ _ _ _ _ _ _ _ _ _ HW f ar Hf) as (d0 & Hd0 & <- & _).
+      destruct (wi_fun _ _ _ _ _ _ _ _ _ _ _ HW d0 Hd0) as (Hs0 & _ & _). destruct (fs_var _ _ _ _ _ Hs0) as (A & B & _). split; assumption.
+    - exact Hub.
+    - exact Hbc.
+    - exact Hlut.
+    - intros t0 Ht0. unfold E1. rewrite sget_sset_var by lia. apply HEf. exact Ht0.
+    - unfold E1. rewrite sget_sset_var by (intros Heq; apply Hnpv; symmetry; exact Heq). exact HpE.
+    - apply (wf_V _ _ Hwf1).
+    - apply (wf_inj _ _ Hwf1).
+    - destruct Hp as (cp & Hlkp & _). exists cp. unfold def_env. cbn [SyltSem.lookup]. destruct (N.eqb_spec fv pv); [congruence | exact Hlkp]. }
+  (* how the old functions see the new environments *)
+  assert (HvisS : forall d0, In d0 (w_funs W) -> fvisS pv (def_env fv e st) d0).
+  { intros d0 Hd0. pose proof (Hall d0 Hd0) as Hvis0. destruct (wi_vsc _ _ _ _ _ _ _ _ _ _ _ HW d0 Hd0 Hvis0) as [Hisc Hifl].
+    apply (fvisS_same pv e _ d0 (wi_visS _ _ _ _ _ _ _ _ _ _ _ HW d0 Hd0 Hvis0)).
+    - unfold def_env. cbn [SyltSem.lookup]. destruct (N.eqb_spec fv (fd_var d0)) as [Heq|]; [|reflexivity]. exfalso. apply Hnfl. rewrite Heq. exact Hvis0.
+    - intros g0 Hg. unfold def_env. cbn [SyltSem.lookup]. destruct (N.eqb_spec fv g0) as [Heq|]; [|reflexivity]. exfalso. subst g0.
+      destruct Hg as [[Hg|Hg]|Hg]; [apply Hnin, Hisc, Hg | apply Hnfl; unfold fnames in *; apply (incl_map fst Hifl); exact Hg | apply Hnpv; exact Hg]. }
+  assert (HvisL : forall d0, In d0 (w_funs W) -> fvisL E1 d0).
+  { intros d0 Hd0. pose proof (Hall d0 Hd0) as Hvis0. destruct (wi_vsc _ _ _ _ _ _ _ _ _ _ _ HW d0 Hd0 Hvis0) as [Hisc Hifl].
+    apply (fvisL_same E _ d0 (wi_visL _ _ _ _ _ _ _ _ _ _ _ HW d0 Hd0 Hvis0)).
+    - apply sget_sset_var. intros Heq. apply Hnfl. rewrite <- Heq. exact Hvis0.
+    - intros g0 [Hg|Hg]; apply sget_sset_var; intros Heq; subst g0;
+        [apply Hnin, Hisc, Hg | apply Hnfl; unfold fnames in *; apply (incl_map fst Hifl); exact Hg]. }
+  assert (HselfS : fvisS pv (def_env fv e st) d).
+  { constructor; cbn [d fd_var fd_cf fd_ef]; [unfold def_env; cbn [SyltSem.lookup]; rewrite N.eqb_refl; reflexivity | reflexivity]. }
+  assert (HselfL : fvisL E1 d).
+  { constructor; cbn [d fd_var fd_pf fd_Ef]; [apply sget_sset_same | reflexivity]. }
+  split.
+  2: { intros d' [<-|Hd']; [left; reflexivity | right; apply Hall; exact Hd']. }
+  constructor.
+  - intros w Hw. destruct (Hv w Hw) as (cc & x & p & H1 & H2 & H3 & H4).
+    assert (Hne : w <> fv) by (intros ->; contradiction).
+    exists cc, x, p. unfold def_env, def_state. cbn [SyltSem.lookup SyltSem.cells]. destruct (N.eqb_spec fv w); [congruence|].
+    splits; [exact H1 | apply nth_error_app_old; exact H2 | unfold E1; rewrite sget_sset_var by exact Hne; exact H3 |].
+    rewrite Hold; [exact H4 | eapply wf_alloc; eassumption].
+  - exact Hb.
+  - intros v1 v2 cc H1 H2. unfold def_env. cbn [SyltSem.lookup].
+    destruct (N.eqb_spec fv v1) as [->|]; [contradiction|]. destruct (N.eqb_spec fv v2) as [->|]; [contradiction|].
+    apply Hi; assumption.
+  - destruct Hp as (cp & Hlkp & Hnthp & Hdist).
+    exists cp. unfold def_env, def_state. cbn [SyltSem.lookup SyltSem.cells]. destruct (N.eqb_spec fv pv); [congruence|].
+    splits; [exact Hlkp | apply nth_error_app_old; exact Hnthp |].
+    intros w Hw. destruct (N.eqb_spec fv w) as [->|]; [contradiction|]. apply Hdist. exact Hw.
+  - exact Hpb.
+  - unfold E1. rewrite sget_sset_var by (intros Heq; apply Hnpv; symmetry; exact Heq). exact HpE.
+  - eapply glob_frame; [|exact HpG]. reflexivity.
+  - exact Hwf1.
+  - exact Ht.
+  - apply linv_lua_def. exact Hli.
+  - (* the world *)
+    constructor; cbn [world_add w_IS w_IL w_funs].
+    + intros c0 x [Hx|[-> ->]]; unfold def_state; cbn [SyltSem.cells].
+      * pose proof (wi_IS _ _ _ _ _ _ _ _ _ _ _ HW c0 x Hx). rewrite nth_error_app1; [assumption | apply nth_error_Some; congruence].
+      * cbn [d fd_cf fd_ci]. apply nth_error_app_new.
+    + intros p lv [Hq|[-> ->]].
+      * destruct (wi_IL _ _ _ _ _ _ _ _ _ _ _ HW p lv Hq) as [Ha Hlt]. split; [rewrite Hold by exact Hlt; exact Ha|].
+        unfold lua_def_state, set_cell, alloc_closure, alloc_cell. cbn [snd s_ncell]. lia.
+      * cbn [d fd_pf fd_fid]. split; [unfold lua_def_state; apply get_cell_set_same|].
+        unfold lua_def_state, set_cell, alloc_closure, alloc_cell. cbn [snd s_ncell]. lia.
+    + intros d0 [<-|Hd0].
+      * cbn [d fd_ci fd_params fd_body fd_ef fd_fid fd_Ef]. splits.
+        -- unfold def_state. cbn [SyltSem.clos]. apply nth_error_app_new.
+        -- unfold lua_def_state, set_cell, alloc_closure, alloc_cell. cbn [snd s_clos s_nclo]. apply pget_pset_same.
+        -- apply (wf_alloc _ _ Hwf1).
+        -- unfold lua_def_state, set_cell, alloc_closure, alloc_cell. cbn [snd s_nclo]. lia.
+        -- unfold def_state. cbn [SyltSem.clos]. rewrite app_length. cbn [length]. lia.
+      * destruct (wi_clos _ _ _ _ _ _ _ _ _ _ _ HW d0 Hd0) as (A & B & C & D & F).
+        splits.
+        -- unfold def_state. cbn [SyltSem.clos]. rewrite nth_error_app1 by exact F. exact A.
+        -- unfold lua_def_state, set_cell, alloc_closure, alloc_cell. cbn [snd s_clos s_nclo]. rewrite pget_pset_other by lia. exact B.
+        -- intros x p Hx. specialize (C x p Hx). unfold lua_def_state, set_cell, alloc_closure, alloc_cell. cbn [snd s_ncell]. lia.
+        -- unfold lua_def_state, set_cell, alloc_closure, alloc_cell. cbn [snd s_nclo]. lia.
+        -- unfold def_state. cbn [SyltSem.clos]. rewrite app_length. lia.
+    + intros d0 [<-|Hd0].
+      * splits; [exact Hstatic | right; split; reflexivity | right; split; reflexivity].
+      * destruct (wi_fun _ _ _ _ _ _ _ _ _ _ _ HW d0 Hd0) as (A & B & C). splits; [exact A | left; exact B | left; exact C].
+    + intros d1 d2 [<-|Hd1] [<-|Hd2] Hvis12.
+      * splits; [exact HselfS | exact HselfL | apply incl_refl | apply incl_refl].
+      * cbn [d fd_fl fd_ef fd_Ef fd_sc] in *. pose proof (Hall d2 Hd2) as Hvis2.
+        destruct (wi_vsc _ _ _ _ _ _ _ _ _ _ _ HW d2 Hd2 Hvis2) as [Hisc Hifl].
+        splits; [apply HvisS; exact Hd2 | apply HvisL; exact Hd2 | exact Hisc | apply incl_tl; exact Hifl].
+      * exfalso. pose proof (Hall d1 Hd1) as Hvis1. destruct (wi_vsc _ _ _ _ _ _ _ _ _ _ _ HW d1 Hd1 Hvis1) as [_ Hifl].
+        apply Hnfl. cbn [d fd_var] in Hvis12. unfold fnames in *. apply (incl_map fst Hifl). exact Hvis12.
+      * apply (wi_inter _ _ _ _ _ _ _ _ _ _ _ HW d1 d2 Hd1 Hd2 Hvis12).
+    + intros f ar [Heq|Hf].
+      * inversion Heq; subst f ar. exists d. splits; [left; reflexivity | reflexivity | reflexivity].
+      * destruct (wi_cover _ _ _ _ _ _ _ _ _ _ _ HW f ar Hf) as (d0 & A & B & C). exists d0. splits; [right; exact A | exact B | exact C].
+    + intros d1 d2 [<-|Hd1] [<-|Hd2] Heq; [reflexivity | | |].
+      * exfalso. apply Hnfl. cbn [d fd_var] in Heq. rewrite Heq. apply Hall. exact Hd2.
+      * exfalso. apply Hnfl. cbn [d fd_var] in Heq. rewrite <- Heq. apply Hall. exact Hd1.
+      * apply (wi_uniq _ _ _ _ _ _ _ _ _ _ _ HW d1 d2 Hd1 Hd2 Heq).
+    + intros v c0 x Hvin Hlk [Hx|[-> _]]; unfold def_env in Hlk; cbn [SyltSem.lookup] in Hlk;
+        (destruct (N.eqb_spec fv v) as [->|]; [contradiction|]).
+      * exact (wi_scS _ _ _ _ _ _ _ _ _ _ _ HW v c0 x Hvin Hlk Hx).
+      * cbn [d fd_cf] in Hlk. specialize (Hcl v _ Hvin Hlk). lia.
+    + intros v Hvin [Heq|Hf]; [cbn [fst] in Heq; subst v; contradiction | exact (wi_scfl _ _ _ _ _ _ _ _ _ _ _ HW v Hvin Hf)].
+    + intros v p lv Hvin Hq [Hx|[-> _]]; unfold E1 in Hq; rewrite sget_sset_var in Hq by (intros ->; contradiction).
+      * exact (wi_lprot _ _ _ _ _ _ _ _ _ _ _ HW v p lv Hvin Hq Hx).
+      * cbn [d fd_pf] in Hq. pose proof (wf_alloc _ _ Hwf _ _ Hq). lia.
+    + intros d0 [<-|Hd0] _; [exact HselfS | apply HvisS; exact Hd0].
+    + intros d0 [<-|Hd0] _; [exact HselfL | apply HvisL; exact Hd0].
+    + intros d0 [<-|Hd0] _.
+      * cbn [d fd_sc fd_fl]. split; apply incl_refl.
+      * destruct (wi_vsc _ _ _ _ _ _ _ _ _ _ _ HW d0 Hd0 (Hall d0 Hd0)) as [A B]. split; [exact A | apply incl_tl; exact B].
 Qed.
 
 End Sim.
-Section FBodyShape.
-Variable pv : N.
-Variable sv : N.
-Variable bound : N.
-Variable u : counts.
-
-Lemma L_fbody g k body ctx c code c' sc sc' l :
-  lower_fbody (statement g) (expression g) body ctx c = Ok (code, c') ->
-  frag_stmts pv sv bound k sc body = Some sc' ->
-  exists b l', cshape u l code b l' c c'.
-Proof.
-  intros Hlow Hfrag. unfold lower_fbody in Hlow.
-  destruct (rev body) as [|last init_rev] eqn:Hrev.
-  - apply ret_ok in Hlow as [<- <-]. eexists _, _. apply cshape_nil.
-  - assert (Hbody : body = rev init_rev ++ [last]) by (rewrite <- (rev_involutive body), Hrev; reflexivity).
-    rewrite Hbody in Hfrag. clear Hbody Hrev.
-    mon Hlow. apply lower_list_ok in Hm as (cs & Hmi & ->).
-    destruct (frag_stmts_app pv sv bound _ _ _ _ _ Hfrag) as (sc1 & k' & Hfi & Hfl).
-    destruct k' as [|k']; [discriminate|]. rewrite frag_stmts_cons in Hfl.
-    destruct (frag_stmt pv sv bound k' sc1 last) as [sc2|] eqn:Hflast; [|discriminate Hfl].
-    destruct (L_stmts_all pv sv bound u g k (rev init_rev) ctx c cs c0 sc sc1 l Hmi Hfi) as (b1 & l1 & Hs1).
-    destruct last; try (destruct (L_stmt_all pv sv bound u g k' _ ctx c0 a0 c' sc1 sc2 l1 Hm0 Hflast) as (b2 & l2 & Hs2);
-                        eexists _, _; eapply cshape_app; eassumption).
-    destruct k' as [|k'']; [discriminate|]. rewrite frag_stmt_sexpr in Hflast. destruct (frag_expr pv sv bound k'' sc1 value) eqn:Hfe; [|discriminate Hflast].
-    mon Hm0. destruct a as [cv rv]. cbn [fst snd] in *.
-    destruct (L_expr_all pv sv bound u g k'' value ctx c0 cv rv c' sc1 l1 Hm Hfe) as (b2 & l2 & Hs2 & _).
-    eexists _, _. eapply cshape_app; [exact Hs1|]. eapply cshape_app; [exact Hs2|].
-    apply (cshape_plain u l2 (IReturn rv) c' c'); [lia | reflexivity | reflexivity | reflexivity].
-Qed.
-End FBodyShape.
-
 
 (* ------------------------------------------------------------------ the whole program *)
 
@@ -379,63 +345,16 @@ Lemma pre_ncell_env : forall x, sget x (PLeaf : env) = None.
 Proof. intros x. unfold sget. destruct (pos_of_string x); reflexivity. Qed.
 
 
-(* the variables a statement list adds to the scope are new ones, different from print and start *)
-Lemma frag_stmt_scope pv sv bound k sc s sc' :
-  frag_stmt pv sv bound k sc s = Some sc' -> sc' = sc \/ exists var, sc' = var :: sc /\ fresh_id pv sv bound sc var = true.
-Proof.
-  intros H. destruct k as [|k]; [discriminate|]. destruct s; try discriminate H.
-  - destruct target; try discriminate H. rewrite frag_stmt_assign in H.
-    destruct (assign_op op && memN var sc && frag_expr pv sv bound k sc value)%bool; inversion H; auto.
-  - destruct (frag_stmt_def _ _ _ _ _ _ _ _ _ _ _ _ H) as (_ & Hf & _ & ->). right. eauto.
-  - rewrite frag_stmt_loop in H.
-    destruct (noexit_expr k condition && frag_expr pv sv bound k sc condition && is_some (frag_stmts pv sv bound k sc body))%bool; inversion H; auto.
-  - inversion H; auto.
-  - inversion H; auto.
-  - rewrite frag_stmt_block in H. destruct (frag_stmts pv sv bound k sc statements); inversion H; auto.
-  - rewrite frag_stmt_sexpr in H. destruct (frag_expr pv sv bound k sc value); inversion H; auto.
-Qed.
-
-Lemma frag_stmts_scope pv sv bound : forall ss k sc sc',
-  frag_stmts pv sv bound k sc ss = Some sc' -> forall v, In v sc' -> In v sc \/ v <> sv.
-Proof.
-  induction ss as [|s ss IH]; intros k sc sc' H v Hv.
-  - destruct k; [discriminate|]. cbn in H. inversion H; subst. left. exact Hv.
-  - destruct k as [|k]; [discriminate|]. rewrite frag_stmts_cons in H.
-    destruct (frag_stmt pv sv bound k sc s) as [sc1|] eqn:Hs; [|discriminate H].
-    destruct (IH k sc1 sc' H v Hv) as [Hin|Hne]; [|right; exact Hne].
-    destruct (frag_stmt_scope _ _ _ _ _ _ _ Hs) as [->|(var & -> & Hf)]; [left; exact Hin|].
-    destruct Hin as [<-|Hin]; [|left; exact Hin].
-    right. unfold fresh_id in Hf. frag_split Hf. apply negb_true_iff, N.eqb_neq in Hfr0. exact Hfr0.
-Qed.
-
-Lemma frag_inv k r :
-  frag k r = true ->
-  exists name pv kd t sp gs nm sv kd' t' fname ret body pure fsp dsp scg sc',
-    r_stmts r = SExternalDefinition name pv kd t sp :: gs ++ [SDefinition nm sv kd' t' (EFunction fname [] ret body pure fsp) dsp] /\
-    name = "print"%string /\ IR.find_start (Resolved.r_vars r) = Some sv /\ pv <> sv /\
-    pv < N.of_nat (length (Resolved.r_vars r)) + 1 /\ sv < N.of_nat (length (Resolved.r_vars r)) + 1 /\
-    forallb is_plain_def gs = true /\
-    frag_stmts pv sv (N.of_nat (length (Resolved.r_vars r)) + 1) k [] gs = Some scg /\
-    frag_stmts pv sv (N.of_nat (length (Resolved.r_vars r)) + 1) k scg body = Some sc'.
-Proof.
-  unfold frag. intros H.
-  destruct (r_stmts r) as [|s0 rest]; [discriminate H|]. destruct s0; try discriminate H.
-  destruct (split_last rest) as [[gs last]|] eqn:Hsl; [|discriminate H]. apply split_last_app in Hsl. subst rest.
-  destruct last; try discriminate H. destruct value; try discriminate H. destruct params; try discriminate H.
-  frag_split H.
-  destruct (frag_stmts var var0 (N.of_nat (length (Resolved.r_vars r)) + 1) k [] gs) as [scg|] eqn:Hg; [|discriminate].
-  destruct (frag_stmts var var0 (N.of_nat (length (Resolved.r_vars r)) + 1) k scg body) as [sc'|] eqn:Hb; [|discriminate].
-  apply String.eqb_eq in H. apply negb_true_iff, N.eqb_neq in Hfr3. apply N.ltb_lt in Hfr2, Hfr1.
-  change (Frag.find_start (Resolved.r_vars r)) with (IR.find_start (Resolved.r_vars r)) in Hfr4.
-  destruct (IR.find_start (Resolved.r_vars r)) as [s|] eqn:Hs; [|discriminate]. apply N.eqb_eq in Hfr4. subst s.
-  do 18 eexists. splits; try reflexivity; try eassumption.
-Qed.
+(* ------------------------------------------------------------------ the outer statements *)
 
 Lemma definition_fun f var name params ret body pure sp ctx :
   definition (S f) var (EFunction name params ret body pure sp) ctx =
   (_ <- fresh ;; bc <- lower_fbody (statement f) (expression f) body ctx ;;
-   IR.ret (IFunction var (map (fun p => snd (fst (fst p))) params) :: bc ++ [IEnd])).
+   IR.ret (IFunction var (param_ids params) :: bc ++ [IEnd])).
 Proof. reflexivity. Qed.
+
+Lemma compile_def n s : is_def s = true -> compile_stmt n s = statement (S n) s 0.
+Proof. destruct s; try discriminate. intros _. reflexivity. Qed.
 
 Lemma mapM_app_ok {A B} (f : A -> M B) a b : forall c r c',
   mapM f (a ++ b) c = Ok (r, c') ->
@@ -449,15 +368,252 @@ Proof.
     cbn [mapM]. unfold IR.bind, IR.ret. rewrite Hy, Ha. reflexivity.
 Qed.
 
-Lemma mapM_ext_in {A B} (f g : A -> M B) l : (forall x, In x l -> f x = g x) -> forall c, mapM f l c = mapM g l c.
+Section Items.
+Variable pv : N.
+Variable sv : N.
+Variable bound : N.
+Variable u : counts.
+
+Notation ctx_ok := (ctx_ok bound).
+
+(* `local function V<f>(ps) <body> end` *)
+Lemma cshape_fun l f ps cb bb l1 c c' :
+  cshape u l cb bb l1 (c + 1) c' -> alut_get l f = None ->
+  cshape u l (IFunction f ps :: cb ++ [IEnd]) [SLocalFun (fmt_var f) (map fmt_var ps) bb] l1 c c'.
 Proof.
-  induction l as [|x l IH]; intros H c; [reflexivity|]. cbn [mapM]. unfold IR.bind.
-  rewrite (H x (or_introl eq_refl)). destruct (g x c) as [[y c1]| |]; [|reflexivity|reflexivity].
-  rewrite IH by (intros z Hz; apply H; right; exact Hz). reflexivity.
+  intros (H & Hc & Hf & _) Hlf. split; [|split; [lia | split; [eapply lut_frame_widen; [exact Hf | lia | lia] | repeat constructor]]].
+  pose proof (Em_fun u l f ps cb bb l1 [] [] l1 H (Em_nil u l1)) as He. unfold aname in He. rewrite Hlf in He. exact He.
 Qed.
 
-Lemma compile_plain n s : is_plain_def s = true -> compile_stmt n s = statement (S n) s 0.
-Proof. destruct s; try discriminate. intros _. reflexivity. Qed.
+(* an outer definition: what it adds to the scope or to the functions is new *)
+Lemma frag_stmt_scope fl k sc s sc' :
+  frag_stmt pv sv bound fl k sc s = Some sc' -> sc' = sc \/ exists var, sc' = var :: sc /\ fresh_id pv sv bound fl sc var = true.
+Proof.
+  intros H. destruct k as [|k]; [discriminate|]. destruct s; try discriminate H.
+  - destruct target; try discriminate H. rewrite frag_stmt_assign in H.
+    destruct (assign_op op && memN var sc && frag_expr pv sv bound fl k sc value)%bool; inversion H; auto.
+  - destruct (frag_stmt_def _ _ _ _ _ _ _ _ _ _ _ _ _ H) as (_ & Hf & _ & ->). right. eauto.
+  - rewrite frag_stmt_loop in H.
+    destruct (noexit_expr k condition && frag_expr pv sv bound fl k sc condition && is_some (frag_stmts pv sv bound fl k sc body))%bool; inversion H; auto.
+  - inversion H; auto.
+  - inversion H; auto.
+  - rewrite frag_stmt_block in H. destruct (frag_stmts pv sv bound fl k sc statements); inversion H; auto.
+  - rewrite frag_stmt_sexpr in H. destruct (frag_expr pv sv bound fl k sc value); inversion H; auto.
+Qed.
+
+Lemma fresh_not_sv fl sc v : fresh_id pv sv bound fl sc v = true -> v <> sv.
+Proof. intros H. destruct (fresh_id_inv _ _ _ _ _ _ H) as (_ & _ & A & _). exact A. Qed.
+
+Lemma frag_items_fresh k : forall items sc fl scf flf,
+  frag_items pv sv bound k sc fl items = Some (scf, flf) ->
+  (forall v, In v scf -> In v sc \/ v <> sv) /\ (forall f, In f (fnames flf) -> In f (fnames fl) \/ f <> sv).
+Proof.
+  induction items as [|s items IH]; intros sc fl scf flf H.
+  - cbn in H. inversion H; subst. split; intros; left; assumption.
+  - cbn [frag_items] in H. destruct s; try discriminate H. destruct value.
+    all: try (destruct (frag_stmt pv sv bound fl k sc _) as [sc1|] eqn:Hs; [|discriminate H];
+              destruct (IH _ _ _ _ H) as [A B]; split; [|exact B];
+              intros v Hv; destruct (A v Hv) as [Hin|Hne]; [|right; exact Hne];
+              destruct (frag_stmt_scope _ _ _ _ _ Hs) as [->|(var' & -> & Hf)]; [left; exact Hin|];
+              destruct Hin as [<-|Hin]; [right; eapply fresh_not_sv; exact Hf | left; exact Hin]).
+    (* a function *)
+    match type of H with (if ?b then _ else _) = _ => destruct b eqn:Hc; [|discriminate H] end.
+    apply andb_prop in Hc as [Hc _]. apply andb_prop in Hc as [Hfr _].
+    destruct (IH _ _ _ _ H) as [A B]. split; [exact A|].
+    intros f Hf. destruct (B f Hf) as [[<-|Hin]|Hne]; [right; eapply fresh_not_sv; exact Hfr | left; exact Hin | right; exact Hne].
+Qed.
+
+(* the structure of the emitted outer statements *)
+Lemma L_items n k : forall items c cs c' sc fl scf flf l,
+  mapM (compile_stmt (S n)) items c = Ok (cs, c') ->
+  frag_items pv sv bound k sc fl items = Some (scf, flf) ->
+  (forall v, v < bound -> alut_get l v = None) -> bound <= c ->
+  exists b l', cshape u l (concat cs) b l' c c' /\ (forall v, v < bound -> alut_get l' v = None).
+Proof.
+  induction items as [|s items IH]; intros c cs c' sc fl scf flf l Hm Hf Hl Hbc.
+  - destruct (mapM_nil_ok _ _ _ _ Hm) as [-> ->]. eexists _, _. split; [apply cshape_nil | exact Hl].
+  - apply mapM_cons_ok in Hm as (y & c1 & ys & Hy & Hys & ->). cbn [concat].
+    cbn [frag_items] in Hf. destruct s; try discriminate Hf.
+    assert (Hplain : forall sc1, frag_stmt pv sv bound fl k sc (SDefinition name var kind t value sp) = Some sc1 ->
+              frag_items pv sv bound k sc1 fl items = Some (scf, flf) ->
+              exists b l', cshape u l (y ++ concat ys) b l' c c' /\ (forall v, v < bound -> alut_get l' v = None)).
+    { intros sc1 Hs Hrest. rewrite (compile_def (S n) (SDefinition name var kind t value sp) eq_refl) in Hy.
+      destruct (L_stmt_all pv sv bound u fl (S (S n)) k _ 0 c y c1 sc sc1 l Hy Hs) as (b1 & l1 & Hs1).
+      pose proof Hs1 as (_ & Hcc1 & Hfr1 & _).
+      assert (Hl1 : forall v, v < bound -> alut_get l1 v = None) by (intros v Hv; rewrite Hfr1 by lia; apply Hl; exact Hv).
+      destruct (IH c1 ys c' sc1 fl scf flf l1 Hys Hrest Hl1 ltac:(lia)) as (b2 & l2 & Hs2 & Hl2).
+      eexists _, _. split; [eapply cshape_app; eassumption | exact Hl2]. }
+    destruct value;
+      try (match type of Hf with context [frag_stmt pv sv bound fl k sc ?s0] =>
+             destruct (frag_stmt pv sv bound fl k sc s0) as [sc1|] eqn:Hs; [exact (Hplain sc1 eq_refl Hf) | discriminate Hf] end).
+    clear Hplain.
+    match type of Hf with (if ?b then _ else _) = _ => destruct b eqn:Hc; [|discriminate Hf] end.
+    apply andb_prop in Hc as [Hc Hfb]. apply andb_prop in Hc as [Hfr Hpok].
+    destruct (frag_stmts pv sv bound ((var, length (param_ids params)) :: fl) k (rev (param_ids params) ++ sc) body) as [scout|] eqn:Hfbody; [|discriminate Hfb].
+    cbn [compile_stmt] in Hy. rewrite definition_fun in Hy. mon Hy. fresh_all.
+    destruct (L_fbody pv sv bound u _ n k body 0 (c + 1) a0 c1 _ scout l Hm0 Hfbody) as (bb & l1 & Hsb).
+    pose proof Hsb as (_ & Hcc1 & Hfr1 & _).
+    destruct (fresh_id_inv _ _ _ _ _ _ Hfr) as (_ & _ & _ & Hvb).
+    assert (Hl1 : forall v, v < bound -> alut_get l1 v = None) by (intros v Hv; rewrite Hfr1 by lia; apply Hl; exact Hv).
+    destruct (IH c1 ys c' sc _ scf flf l1 Hys Hf Hl1 ltac:(lia)) as (b2 & l2 & Hs2 & Hl2).
+    eexists _, _. split; [|exact Hl2].
+    eapply cshape_app; [apply cshape_fun; [exact Hsb | apply Hl; exact Hvb] | exact Hs2].
+Qed.
+
+(* the outer definitions at chunk level, one after the other: a value (one P_exec) or a function (it joins the
+   world); run_outer executes them with the same fuel *)
+Lemma items_sim n' k : forall items c cs c' cend e st r st' sc scf fl flf W l E stL F,
+  SyltSem.run_outer (S (S n')) e items st = (r, st') ->
+  mapM (compile_stmt (S (S n'))) items c = Ok (cs, c') ->
+  frag_items pv sv bound k sc fl items = Some (scf, flf) ->
+  ucovers u (concat cs) -> c' <= cend -> ctx_ok l F E c cend ->
+  rel pv sv bound u fl W sc e st E stL ->
+  (forall d, In d (w_funs W) -> In (fd_var d) (fnames fl)) ->
+  match r with SyltSem.RAbrupt _ => False | _ => True end -> interesting r ->
+  exists b l', cshape u l (concat cs) b l' c c' /\
+    match r with
+    | SyltSem.RVal e' =>
+        exists W' E' stL' F', ExecS E b stL (ROk (E', SigNormal) stL') /\
+          rel pv sv bound u flf W' scf e' st' E' stL' /\ ctx_ok l' F' E' c' cend /\
+          (forall d, In d (w_funs W') -> In (fd_var d) (fnames flf))
+    | SyltSem.RStop o => exists ev stL', ExecS E b stL (RErr ev stL') /\ SyltSem.trace st' = s_out stL'
+    | SyltSem.RAbrupt _ => False
+    end.
+Proof.
+  induction items as [|s items IH]; intros c cs c' cend e st r st' sc scf fl flf W l E stL F Hev Hm Hf Hu Hce Hctx Hrel Hall Hna Hint.
+  - destruct (mapM_nil_ok _ _ _ _ Hm) as [-> ->]. cbn in Hf. inversion Hf; subst scf flf.
+    cbn in Hev. inversion Hev; subst r st'.
+    eexists _, _. split; [apply cshape_nil|]. exists W, E, stL, F. splits; [apply XS_nil | exact Hrel | exact Hctx | exact Hall].
+  - apply mapM_cons_ok in Hm as (y & c1 & ys & Hy & Hys & ->). cbn [concat] in *.
+    apply ucovers_app in Hu as [Huy Huys].
+    pose proof Hctx as [Hbc Hlut HFo HEf].
+    assert (Hlb : forall v, v < bound -> alut_get l v = None) by (intros v Hv; apply Hlut; right; exact Hv).
+    cbn [frag_items] in Hf. destruct s; try discriminate Hf.
+    assert (Hstep : SyltSem.run_outer (S (S n')) e (SDefinition name var kind t value sp :: items) st =
+                    SyltSem.bind (SyltSem.exec (S (S n')) e (SDefinition name var kind t value sp)) (fun e' => SyltSem.run_outer (S (S n')) e' items) st)
+      by reflexivity.
+    rewrite Hstep in Hev. clear Hstep. unfold SyltSem.bind at 1 in Hev.
+    (* a global value *)
+    assert (Hplain : forall sc1, frag_stmt pv sv bound fl k sc (SDefinition name var kind t value sp) = Some sc1 ->
+              frag_items pv sv bound k sc1 fl items = Some (scf, flf) ->
+              exists b l', cshape u l (y ++ concat ys) b l' c c' /\
+                match r with
+                | SyltSem.RVal e' =>
+                    exists W' E' stL' F', ExecS E b stL (ROk (E', SigNormal) stL') /\
+                      rel pv sv bound u flf W' scf e' st' E' stL' /\ ctx_ok l' F' E' c' cend /\
+                      (forall d, In d (w_funs W') -> In (fd_var d) (fnames flf))
+                | SyltSem.RStop o => exists ev stL', ExecS E b stL (RErr ev stL') /\ SyltSem.trace st' = s_out stL'
+                | SyltSem.RAbrupt _ => False
+                end).
+    { intros sc1 Hs Hrest. rewrite (compile_def (S (S n')) (SDefinition name var kind t value sp) eq_refl) in Hy.
+      destruct (L_stmt_all pv sv bound u fl (S (S (S n'))) k _ 0 c y c1 sc sc1 l Hy Hs) as (_ & _ & (_ & Hcc1 & _)).
+      destruct (L_items (S n') k items c1 ys c' sc1 fl scf flf l Hys Hrest Hlb ltac:(lia)) as (_ & _ & (_ & Hc1c' & _) & _).
+      assert (HLr : forall l0, (forall v, v < bound -> alut_get l0 v = None) -> exists b2 l2, cshape u l0 (concat ys) b2 l2 c1 c')
+        by (intros l0 Hl0; destruct (L_items (S n') k items c1 ys c' sc1 fl scf flf l0 Hys Hrest Hl0 ltac:(lia)) as (b2 & l2 & H2 & _); eauto).
+      assert (Hctxs : ctx_ok l F E c c1) by (eapply ctx_sub; [exact Hctx | lia | lia]).
+      pose proof (proj1 (proj2 (P_all pv sv bound u (S (S n')) fl W))) as IHs.
+      destruct (SyltSem.exec (S (S n')) e (SDefinition name var kind t value sp) st) as [[e1|o|cc] st1] eqn:He1.
+      3: { inversion Hev; subst. destruct Hna. }
+      2: { inversion Hev; subst.
+           destruct (IHs (S (S (S n'))) k _ 0 c y c1 e st _ st' sc sc1 l E stL F He1 Hy Hs Huy Hctxs Hrel Hint) as (b1 & l1 & Hs1 & Hp1).
+           pose proof Hs1 as (_ & _ & Hfr1 & _).
+           destruct (HLr l1) as (b2 & l2 & Hs2); [intros v Hv; rewrite Hfr1 by lia; apply Hlb; exact Hv|].
+           eexists _, _. split; [eapply cshape_app; eassumption|].
+           cbn [stmt_post] in Hp1. destruct Hp1 as (rl & Hx & (ev & stL' & -> & Htr)).
+           exists ev, stL'. split; [apply ExecS_app_stop; [exact Hx | intros []] | exact Htr]. }
+      destruct (IHs (S (S (S n'))) k _ 0 c y c1 e st _ st1 sc sc1 l E stL F He1 Hy Hs Huy Hctxs Hrel I)
+        as (b1 & l1 & Hs1 & E1 & stL1 & F1 & Hok1 & Hse1 & Hinc1).
+      pose proof Hok1 as (Hx1 & _ & Hrel1 & _).
+      assert (Hctx1 : ctx_ok l1 F1 E1 c1 cend) by (eapply (ctx_afterS pv sv bound u fl W); eassumption).
+      destruct (IH c1 ys c' cend e1 st1 r st' sc1 scf fl flf W l1 E1 stL1 F1 Hev Hys Hrest Huys Hce Hctx1 Hrel1 Hall Hna Hint)
+        as (b2 & l2 & Hs2 & Hpost).
+      eexists _, _. split; [eapply cshape_app; eassumption|].
+      destruct r as [e2|o|cc]; [| |destruct Hna].
+      - destruct Hpost as (W' & E' & stL' & F' & Hx2 & Hr2 & Hc2 & Ha2).
+        exists W', E', stL', F'. splits; [eapply ExecS_app; eassumption | exact Hr2 | exact Hc2 | exact Ha2].
+      - destruct Hpost as (ev & stL' & Hx2 & Htr). exists ev, stL'. split; [eapply ExecS_app; eassumption | exact Htr]. }
+    destruct value;
+      try (match type of Hf with context [frag_stmt pv sv bound fl k sc ?s0] =>
+             destruct (frag_stmt pv sv bound fl k sc s0) as [sc1|] eqn:Hs; [exact (Hplain sc1 eq_refl Hf) | discriminate Hf] end).
+    clear Hplain.
+    (* a function *)
+    match type of Hf with (if ?b then _ else _) = _ => destruct b eqn:Hc; [|discriminate Hf] end.
+    apply andb_prop in Hc as [Hc Hfb]. apply andb_prop in Hc as [Hfr Hpok].
+    set (ps := param_ids params) in *. set (fl' := (var, length ps) :: fl) in *.
+    destruct (frag_stmts pv sv bound fl' k (rev ps ++ sc) body) as [scout|] eqn:Hfbody; [|discriminate Hfb].
+    cbn [compile_stmt] in Hy. rewrite definition_fun in Hy. fold ps in Hy. mon Hy. fresh_all. rename a0 into bc.
+    rewrite exec_def_fun in Hev. fold ps in Hev.
+    apply ucovers_cons in Huy as [_ Huy]. apply ucovers_app in Huy as [Hubc _].
+    destruct (L_fbody pv sv bound u fl' (S n') k body 0 (c + 1) bc c1 _ scout l Hm0 Hfbody) as (bb & l1 & Hsb).
+    pose proof Hsb as (Hemb & Hcc1 & Hfr1 & Hnlb).
+    destruct (fresh_id_inv _ _ _ _ _ _ Hfr) as (Hnin & Hnpv & Hnsv & Hvb).
+    destruct (L_items (S n') k items c1 ys c' sc fl' scf flf l1 Hys Hf) as (_ & _ & (_ & Hc1c' & _) & _);
+      [intros v Hv; rewrite Hfr1 by lia; apply Hlb; exact Hv | lia |].
+    assert (Hlut1 : lut_ok bound l (c + 1) c1) by (eapply lut_ok_sub; [exact Hlut | lia | lia]).
+    assert (HEf1 : E_free E (c + 1) c1) by (eapply E_free_sub; [exact HEf | lia | lia]).
+    destruct (rel_define_function pv sv bound u fl W sc e st E stL var ps body (S n') k scout bc (c + 1) c1 l
+                Hrel Hall Hfr Hpok Hfbody Hm0 Hubc ltac:(lia) Hlut1 HEf1) as (Hrel1 & Hall1).
+    set (E1 := sset (fmt_var var) (s_ncell stL) E) in *.
+    set (d := mkFdyn var ps body sc fl' (S n') k scout bc (c + 1) c1 l (length (SyltSem.cells st)) (length (SyltSem.clos st))
+                     (def_env var e st) (s_ncell stL) (s_nclo stL) E1) in *.
+    assert (Hbb : bb = fbody u d) by (unfold fbody; cbn [d fd_lut fd_code]; apply (Emits_block_fun u l bc bb l1 Hemb)).
+    assert (Hx1 : Exec E (SLocalFun (fmt_var var) (map fmt_var ps) bb) stL (ROk (E1, SigNormal) (lua_def_state stL E1 ps bb)))
+      by apply Exec_localfun.
+    assert (Hctx1 : ctx_ok l1 F E1 c1 cend).
+    { constructor; [lia | | eapply F_out_sub; [exact HFo | lia | lia] |].
+      - intros t0 Ht0. rewrite Hfr1 by lia. apply Hlut. lia.
+      - intros t0 Ht0. unfold E1. rewrite sget_sset_var by lia. apply HEf. lia. }
+    change (rel pv sv bound u fl' (world_add W d) sc (def_env var e st) (def_state var ps body e st) E1 (lua_def_state stL E1 ps (fbody u d))) in Hrel1.
+    change (forall d', In d' (w_funs (world_add W d)) -> In (fd_var d') (fnames fl')) in Hall1.
+    rewrite <- Hbb in Hrel1.
+    destruct (IH c1 ys c' cend (def_env var e st) (def_state var ps body e st) r st' sc scf fl' flf (world_add W d) l1 E1
+                 (lua_def_state stL E1 ps bb) F Hev Hys Hf Huys Hce Hctx1 Hrel1 Hall1 Hna Hint)
+      as (b2 & l2 & Hs2 & Hpost).
+    eexists _, _. split; [eapply cshape_app; [apply cshape_fun; [exact Hsb | apply Hlb; exact Hvb] | exact Hs2]|].
+    destruct r as [e2|o|cc]; [| |destruct Hna].
+    + destruct Hpost as (W' & E' & stL' & F' & Hx2 & Hr2 & Hc2 & Ha2).
+      exists W', E', stL', F'. splits; [|exact Hr2 | exact Hc2 | exact Ha2].
+      cbn [app]. eapply XS_cons; [exact Hx1 | exact Hx2].
+    + destruct Hpost as (ev & stL' & Hx2 & Htr). exists ev, stL'. split; [|exact Htr].
+      cbn [app]. eapply XS_cons; [exact Hx1 | exact Hx2].
+Qed.
+
+End Items.
+
+(* ------------------------------------------------------------------ the whole program *)
+
+Lemma frag_items_defs pv sv bound k : forall items sc fl scf flf,
+  frag_items pv sv bound k sc fl items = Some (scf, flf) -> forallb is_def items = true.
+Proof.
+  induction items as [|s items IH]; intros sc fl scf flf H; [reflexivity|].
+  cbn [frag_items] in H. destruct s; try discriminate H. cbn [forallb is_def andb].
+  destruct value;
+    try (match type of H with context [frag_stmt pv sv bound fl k sc ?s0] =>
+           destruct (frag_stmt pv sv bound fl k sc s0) as [sc1|]; [eapply IH; exact H | discriminate H] end).
+  match type of H with (if ?b then _ else _) = _ => destruct b; [|discriminate H] end. eapply IH; exact H.
+Qed.
+
+Lemma frag_inv k r :
+  frag k r = true ->
+  exists name pv kd t sp gs nm sv kd' t' fname ret body pure fsp dsp scg flg sc',
+    r_stmts r = SExternalDefinition name pv kd t sp :: gs ++ [SDefinition nm sv kd' t' (EFunction fname [] ret body pure fsp) dsp] /\
+    name = "print"%string /\ IR.find_start (Resolved.r_vars r) = Some sv /\ pv <> sv /\
+    pv < N.of_nat (length (Resolved.r_vars r)) + 1 /\ sv < N.of_nat (length (Resolved.r_vars r)) + 1 /\
+    frag_items pv sv (N.of_nat (length (Resolved.r_vars r)) + 1) k [] [] gs = Some (scg, flg) /\
+    frag_stmts pv sv (N.of_nat (length (Resolved.r_vars r)) + 1) flg k scg body = Some sc'.
+Proof.
+  unfold frag. intros H.
+  destruct (r_stmts r) as [|s0 rest]; [discriminate H|]. destruct s0; try discriminate H.
+  destruct (split_last rest) as [[gs last]|] eqn:Hsl; [|discriminate H]. apply split_last_app in Hsl. subst rest.
+  destruct last; try discriminate H. destruct value; try discriminate H. destruct params; try discriminate H.
+  frag_split H.
+  destruct (frag_items var var0 (N.of_nat (length (Resolved.r_vars r)) + 1) k [] [] gs) as [[scg flg]|] eqn:Hg; [|discriminate].
+  destruct (frag_stmts var var0 (N.of_nat (length (Resolved.r_vars r)) + 1) flg k scg body) as [sc'|] eqn:Hb; [|discriminate].
+  apply String.eqb_eq in H. apply negb_true_iff, N.eqb_neq in Hfr2. apply N.ltb_lt in Hfr1, Hfr0.
+  change (Frag.find_start (Resolved.r_vars r)) with (IR.find_start (Resolved.r_vars r)) in Hfr3.
+  destruct (IR.find_start (Resolved.r_vars r)) as [s|] eqn:Hs; [|discriminate]. apply N.eqb_eq in Hfr3. subst s.
+  do 19 eexists. splits; try reflexivity; try eassumption.
+Qed.
 
 (* the program's statements, run in any Lua state that satisfies the preamble invariant, has printed nothing
    and has no global named V<n> *)
@@ -471,15 +627,18 @@ Definition lua_result (st0 : state) (code : list ir) (res : SyltSem.run_result) 
     | _ => exists v, r = RErr v st
     end.
 
+Definition world0 : world := mkWorld (fun _ _ => False) (fun _ _ => False) [].
+
 Lemma program_sim k r code n res st0 :
   linv st0 -> s_out st0 = [] -> (forall v, raw_get (get_table st0 globals_id) (VStr (fmt_var v)) = VNil) ->
   frag k r = true -> lower n r = Ok code -> SyltSem.run n r = res -> good_final (SyltSem.r_final res) ->
   lua_result st0 code res.
 Proof.
   intros Hlin0 Hout0 HnoV Hfrag Hlow Hrun Hgood. subst res.
-  destruct (frag_inv k r Hfrag) as (name & pv & kd & t & sp & gs & nm & sv & kd' & t' & fname & ret & body & pure & fsp & dsp & scg & sc' &
-                                    Hstmts & -> & Hstart & Hne & Hpvb & Hsvb & Hplain & Hfg & Hfb).
+  destruct (frag_inv k r Hfrag) as (name & pv & kd & t & sp & gs & nm & sv & kd' & t' & fname & ret & body & pure & fsp & dsp & scg & flg & sc' &
+                                    Hstmts & -> & Hstart & Hne & Hpvb & Hsvb & Hfg & Hfb).
   set (bound := N.of_nat (length (Resolved.r_vars r)) + 1) in *.
+  pose proof (frag_items_defs _ _ _ _ _ _ _ _ _ Hfg) as Hdefs.
   (* the lowering *)
   unfold lower in Hlow. rewrite Hstmts, Hstart in Hlow. fold bound in Hlow.
   match type of Hlow with match ?m bound with _ => _ end = _ => destruct (m bound) as [[code0 cend]| |] eqn:Hm; [|discriminate|discriminate] end.
@@ -491,13 +650,11 @@ Proof.
   apply mapM_cons_ok in Hmst as (cdef & c2 & ynil & Hdef & Hnil & ->). apply mapM_nil_ok in Hnil as [-> ->].
   cbn [compile_stmt] in Hdef.
   destruct n as [|f]; [discriminate Hdef|].
-  rewrite definition_fun in Hdef. cbn [map] in Hdef. mon Hdef. fresh_all.
+  rewrite definition_fun in Hdef. cbn [param_ids map] in Hdef. mon Hdef. fresh_all.
   rename a0 into bc. rename c2 into cb. rename Hm0 into Hbody.
-  rewrite (mapM_ext_in (compile_stmt (S f)) (fun s => statement (S (S f)) s 0) gs) in Hmg
-    by (intros x Hx; apply compile_plain; rewrite forallb_forall in Hplain; apply Hplain; exact Hx).
   (* the reference interpreter *)
   destruct f as [|f'].
-  { rewrite (run_fuel1 r pv sv kd t sp gs nm kd' t' fname ret body pure fsp dsp Hstmts Hstart Hplain) in Hgood. destruct Hgood. }
+  { rewrite (run_fuel1 r pv sv kd t sp gs nm kd' t' fname ret body pure fsp dsp Hstmts Hstart Hdefs) in Hgood. destruct Hgood. }
   rewrite (run_frag_eq r pv sv kd t sp gs nm kd' t' fname ret body pure fsp dsp f' Hstmts Hstart) in *.
   set (code := concat ([IExternal pv "print"] :: csg ++ [IFunction sv [] :: bc ++ [IEnd]]) ++ [ICall cb sv []]).
   assert (Hcodeq : code = IExternal pv "print" :: concat csg ++ (IFunction sv [] :: bc ++ [IEnd]) ++ [ICall cb sv []]).
@@ -509,10 +666,11 @@ Proof.
   assert (Hubc : ucovers u bc).
   { eapply ucovers_incl; [|exact Hucode]. intros x Hx. rewrite Hcodeq. right. apply in_or_app. right. apply in_or_app. left.
     right. apply in_or_app. left. exact Hx. }
-  (* the ranges of temporaries: globals in [bound, cg), the body of start in [cg + 1, cb) *)
-  destruct (L_stmts_all pv sv bound u (S (S (S f'))) k gs 0 bound csg cg [] scg [] Hmg Hfg) as (_ & _ & (_ & Hbcg & _)).
+  (* the ranges of temporaries: the outer definitions in [bound, cg), the body of start in [cg + 1, cb) *)
+  destruct (L_items pv sv bound u (S f') k gs bound csg cg [] [] scg flg [] Hmg Hfg ltac:(intros; reflexivity) ltac:(lia))
+    as (_ & _ & (_ & Hbcg & _) & _).
   assert (HLf : forall l0, exists b l', cshape u l0 bc b l' (cg + 1) cb)
-    by (intros l0; eapply (L_fbody pv sv bound u); eassumption).
+    by (intros l0; eapply (L_fbody pv sv bound u flg); eassumption).
   destruct (HLf []) as (_ & _ & (_ & Hcgcb & _)).
   set (prog := fun (bg b : block) => SAssign [EVar (fmt_var pv)] [EVar "print"] :: bg ++
                  [SLocalFun (fmt_var sv) [] b; SLocal [fmt_var cb] [ECall (EVar (fmt_var sv)) []]]).
@@ -544,7 +702,7 @@ Proof.
     - apply HnoV.
     - apply (g_nometa _ (li_genv _ Hlin0)). }
   assert (Hlin1 : linv st1) by (apply linv_set_global; exact Hlin0).
-  assert (Hrel0 : rel pv bound [] [(pv, 0%nat)] print_state PLeaf st1).
+  assert (Hrel0 : rel pv sv bound u [] world0 [] [(pv, 0%nat)] print_state PLeaf st1).
   { constructor.
     - intros v [].
     - intros v [].
@@ -558,19 +716,23 @@ Proof.
       + intros x y p H _. rewrite pre_ncell_env in H. discriminate.
       + intros x p H. rewrite pre_ncell_env in H. discriminate.
     - exact (eq_sym Hout0).
-    - exact Hlin1. }
-  assert (Hctx0 : ctx_ok bound [] [] PLeaf bound cg).
+    - exact Hlin1.
+    - constructor; cbn [world0 w_IS w_IL w_funs]; try (intros; contradiction).
+      intros v p lv []. }
+  assert (Hctx0 : ctx_ok bound [] [] PLeaf bound cb).
   { constructor; [lia | intros t0 _; reflexivity | intros t0 [] | intros t0 _; apply pre_ncell_env]. }
-  (* the global definitions *)
+  (* the outer definitions *)
   destruct (SyltSem.run_outer (S (S f')) [(pv, 0%nat)] gs print_state) as [rg stg] eqn:Hrg.
+  assert (Hnag : match rg with SyltSem.RAbrupt _ => False | _ => True end).
+  { destruct rg as [eg|o|cc]; [exact I | exact I | cbn in Hgood; destruct Hgood]. }
   assert (Hintg : interesting rg).
-  { destruct rg as [eg|o|cc]; [exact I | | cbn in Hgood; destruct Hgood]. cbn in Hgood. destruct o; try destruct Hgood; try exact I.
+  { destruct rg as [eg|o|cc]; [exact I | | destruct Hnag]. cbn in Hgood. destruct o; try destruct Hgood; try exact I.
     exfalso. eapply run_outer_not_done. exact Hrg. }
-  destruct (globals_sim pv sv bound u (S (S f')) (S (S (S f'))) gs k 0 bound csg cg _ _ rg stg [] scg [] PLeaf st1 []
-              Hrg Hmg Hplain Hfg Hug Hctx0 Hrel0 Hintg) as (bg & lg & Hsg & Hpostg).
-  destruct rg as [eg|o|cc]; [| |cbn in Hgood; destruct Hgood].
-  2: { (* a global definition fails *)
-       cbn [stmt_post] in Hpostg. destruct Hpostg as (rl & Hxg & (ev & stL' & -> & Htr)).
+  destruct (items_sim pv sv bound u f' k gs bound csg cg cb _ _ rg stg [] scg [] flg world0 [] PLeaf st1 []
+              Hrg Hmg Hfg Hug ltac:(lia) Hctx0 Hrel0 ltac:(intros d []) Hnag Hintg) as (bg & lg & Hsg & Hpostg).
+  destruct rg as [eg|o|cc]; [| |destruct Hnag].
+  2: { (* an outer definition fails *)
+       destruct Hpostg as (ev & stL' & Hxg & Htr).
        destruct (HLf lg) as (b & l' & Hsb). destruct (Hemit bg lg b l' Hsg Hsb) as (Hcode & Hnlp).
        unfold lua_result. fold code. rewrite Hcode.
        exists (RErr ev stL'), stL'. splits.
@@ -580,41 +742,37 @@ Proof.
        - cbn [SyltSem.r_trace]. rewrite <- Htr. reflexivity.
        - cbn [SyltSem.r_final]. cbn in Hgood. destruct o; try destruct Hgood; eauto.
          exfalso. eapply run_outer_not_done. exact Hrg. }
-  cbn [stmt_post] in Hpostg. destruct Hpostg as (Eg & stLg & Fg & Hokg & Hseg & Hincg).
-  pose proof Hokg as (Hxg & Hfrg & Hrelg & Hng & Hkg).
-  assert (Hctxg : ctx_ok bound lg Fg Eg cg cb).
-  { assert (Hctx0' : ctx_ok bound [] [] PLeaf bound cb).
-    { constructor; [lia | intros t0 _; reflexivity | intros t0 [] | intros t0 _; apply pre_ncell_env]. }
-    eapply (ctx_afterS pv bound u); eassumption. }
+  destruct Hpostg as (Wg & Eg & stLg & Fg & Hxg & Hrelg & Hctxg & Hallg).
+  destruct (frag_items_fresh pv sv bound k gs [] [] scg flg Hfg) as [Hscsv Hflsv].
+  assert (Hsvg : ~ In sv scg) by (intros Hin; destruct (Hscsv sv Hin) as [[]|H]; apply H; reflexivity).
+  assert (Hsvf : ~ In sv (fnames flg)) by (intros Hin; destruct (Hflsv sv Hin) as [[]|H]; apply H; reflexivity).
   (* local function V<sv> *)
   set (b0 := estack u lg [] [] bc).
   set (csv := s_ncell stLg).
   set (E1 := sset (fmt_var sv) csv Eg).
   set (fid := s_nclo stLg).
-  set (st2 := set_cell (snd (alloc_closure (snd (alloc_cell stLg VNil)) (mkClosure E1 [] b0))) csv (VFun fid)).
+  set (st2 := lua_def_state stLg E1 [] b0).
   assert (Hx2 : Exec Eg (SLocalFun (fmt_var sv) [] b0) stLg (ROk (E1, SigNormal) st2)) by apply Exec_localfun.
   assert (Hclo : pget fid (s_clos st2) = Some (mkClosure E1 [] b0)).
-  { unfold st2, set_cell, alloc_closure, alloc_cell. cbn [snd s_clos s_nclo]. apply pget_pset_same. }
-  assert (Hcell : get_cell st2 csv = VFun fid) by (unfold st2; apply get_cell_set_same).
-  assert (Hsvg : ~ In sv scg).
-  { intros Hin. destruct (frag_stmts_scope pv sv bound gs k [] scg Hfg sv Hin) as [[]|H]. apply H. reflexivity. }
-  assert (Hrel2 : rel pv bound scg (start_env sv eg stg) (start_state sv body eg stg) E1 st2).
-  { apply (rel_define_fun pv sv bound scg eg stg Eg stLg body b0 Hrelg Hsvg); [intros Heq; apply Hne; symmetry; exact Heq | exact Hsvb]. }
+  { unfold st2, lua_def_state, set_cell, alloc_closure, alloc_cell. cbn [snd s_clos s_nclo map]. apply pget_pset_same. }
+  assert (Hcell : get_cell st2 csv = VFun fid) by (unfold st2, lua_def_state; apply get_cell_set_same).
+  assert (Hrel2 : rel pv sv bound u flg Wg scg (start_env sv eg stg) (start_state sv body eg stg) E1 st2).
+  { apply (rel_define_start pv sv bound u flg Wg scg eg stg Eg stLg [] body b0 Hrelg Hsvg); [intros Heq; apply Hne; symmetry; exact Heq | exact Hsvb | exact Hsvf]. }
   assert (HE1sv : sget (fmt_var sv) E1 = Some csv) by apply sget_sset_same.
   assert (Hctx2 : ctx_ok bound lg Fg E1 (cg + 1) cb).
   { destruct Hctxg as [Hb Hl HF HE]. constructor; [lia | eapply lut_ok_sub; [exact Hl | lia | lia] | eapply F_out_sub; [exact HF | lia | lia] |].
     intros t0 Ht. unfold E1. rewrite sget_sset_var by lia. apply HE. lia. }
   destruct (SyltSem.block_value (S f') (start_env sv eg stg) body (start_state sv body eg stg)) as [rb stb] eqn:Hbv.
-  assert (Hna : noab rb).
+  assert (Hna : match rb with SyltSem.RAbrupt _ => False | _ => True end).
   { destruct rb as [v|o|[| |v]]; try exact I.
     - cbn in Hgood. destruct Hgood.
     - cbn in Hgood. destruct Hgood.
-    - exact (proj2 (proj2 (proj2 (NR_all pv sv bound (S f')))) k scg sc' _ body _ _ stb Hfb Hbv). }
+    - exact (proj2 (proj2 (proj2 (NR_all pv sv bound flg (S f')))) k scg sc' _ body _ _ stb Hfb Hbv). }
   assert (Hint : interesting rb).
   { destruct rb as [v|o|cc]; [exact I | | destruct Hna]. cbn in Hgood. destruct o; try destruct Hgood; try exact I.
     exfalso. eapply SemSane.block_value_not_done. exact Hbv. }
-  destruct (fbody_sim pv sv bound u (S f') (S f') k body 0 (cg + 1) bc cb _ _ rb stb scg sc' lg E1 st2 Fg Hbv Hbody Hfb Hubc Hctx2 Hrel2 Hint Hna)
-    as (b1 & l1 & Hs1 & Hpost).
+  destruct (proj1 (proj2 (proj2 (proj2 (proj2 (P_all pv sv bound u (S f') flg Wg))))) (S f') k body 0 (cg + 1) bc cb _ _ rb stb scg sc' lg E1 st2 Fg
+              Hbv Hbody Hfb Hubc Hctx2 Hrel2 Hint) as (b1 & l1 & Hs1 & Hpost).
   assert (Hb01 : b1 = b0) by (unfold b0; apply (Emits_block_fun u lg bc b1 l1); apply Hs1).
   subst b1. pose proof Hs1 as (_ & _ & _ & Hnl0).
   destruct (Hemit bg lg b0 l1 Hsg Hs1) as (Hcode & Hnlp).
@@ -623,12 +781,13 @@ Proof.
   { rewrite <- Hcell. apply Eval_local. exact HE1sv. }
   destruct rb as [v|o|cc]; [| |destruct Hna].
   - (* start returns *)
-    destruct Hpost as (E' & sg & stL' & Hxb & Hsg' & Htr).
+    destruct Hpost as (E' & sg & stL' & sc2 & e2 & Hxb & Hsg' & Hrelb & _).
+    pose proof (r_trace _ _ _ _ _ _ _ _ _ _ _ Hrelb) as Htr.
     assert (Hcall : exists vs, Call (VFun fid) [] st2 (ROk vs stL')).
-    { destruct Hsg' as [->|[vs ->]].
+    { destruct Hsg' as [[-> _]|(lv & -> & _)].
       - exists []. eapply (Call_closure_normal fid (mkClosure E1 [] b0)); [exact Hclo | reflexivity |].
         cbn [c_body]. apply ExecBlock_of_ExecS; [exact Hxb | exact Hnl0 | intros []].
-      - exists vs. eapply (Call_closure fid (mkClosure E1 [] b0)); [exact Hclo | reflexivity |].
+      - exists [lv]. eapply (Call_closure fid (mkClosure E1 [] b0)); [exact Hclo | reflexivity |].
         cbn [c_body]. apply ExecBlock_of_ExecS; [exact Hxb | exact Hnl0 | intros []]. }
     destruct Hcall as [vs Hcall].
     pose proof (Exec_local E1 [fmt_var cb] [ECall (EVar (fmt_var sv)) []] st2 vs stL'
